@@ -31,11 +31,18 @@ def record(res: dict, key: dict, case: dict, detail: str) -> None:
     res["witnesses"].append({"key": key, "case": case, "detail": detail[:1500]})
 
 
+EMPTY_BODY_DOCS = ["{ }\n", "# keep me\n{ }\n", "{ } # trailing\n", "{ pkgs }: # note\n{ }\n",
+                   "{ pkgs }:\n{ }\n", "let\n  v = 1;\nin\n{ } # trailing\n", "# top\nf { }\n"]
+
+
 def make_document(rng: random.Random, *, canonical_only: bool = False, **kw):
     kw.setdefault("hyphen", False)
     kw.setdefault("comment_rate", rng.choice([1.0, 1.0, 1.0, 3.0, 5.0]))
     text, doc = E.canonical_doc(rng, **kw)
     canonical = True
+    if rng.random() < 0.03:
+        # boundary: a body set without bindings, with and without comments around it
+        text = rng.choice(EMPTY_BODY_DOCS)
     if not canonical_only and rng.random() < 0.3:
         text2 = E.noncanonical_variant(rng, text)
         if not cst.has_error(text2):
